@@ -105,6 +105,8 @@ class MtlRun:
         if not self.shared:
             return []
         outv = self.agg.calls[0]["out"].reshape(-1)
+        if not bool(torch.isfinite(outv).all()):
+            return []          # a non-finite aggregation (degenerate matrix for that aggregator) says nothing about slicing
         sizes = {l: self.scn["prog"][l - 1]["size"] for l in self.shared}
         msgs = []
         for order in orders:
